@@ -298,6 +298,15 @@ def check_c14(out, tier):
                 c = with_cfg(c, mode="shapemap", items=sm, targets=[])
         items.append({"id": c["id"], "rel": "inverse", "a": with_cfg(c, inverse=True), "b": with_cfg(c, inverse=False),
                       "c": with_cfg(with_graph(c, R), inverse=False)})
+    # incoming links of one property from subjects of several classes with very different frequencies, thresholds between them
+    for i in range(30 * k):
+        T = gen.sources_graph(rnd)
+        c = gen.case("c14s%d" % i, T, **gen.switches(rnd, ors=rnd.random() < .3))
+        c = with_cfg(c, thr=rnd.choice([[1, 3], [1, 2], [51, 100], [2, 3], [3, 4]]))
+        R = sorted(set(reverse_graph(T)), key=str)
+        rnd.shuffle(R)
+        items.append({"id": c["id"], "rel": "inverse", "a": with_cfg(c, inverse=True), "b": with_cfg(c, inverse=False),
+                      "c": with_cfg(with_graph(c, R), inverse=False)})
     campaign(out, "C14", items, mine)
     pinned_campaigns(out, "C14", mine)
     return ("triples of runs on IRI-node graphs: (G, inverse_paths), (G, no inverse), (Reverse(G), no inverse): the direct part of "
